@@ -437,25 +437,31 @@ func (d *Decoder) Style() Style {
 // to bother parsing any children.
 // All it does is look for the end of the pre block and line breaks.
 func (d *Decoder) scanPre(data []byte, atEOF bool) (advance int, token []byte, err error) {
-	switch idx := bytes.Index(data, fence); {
-	case idx == 0 && !atEOF && len(data) == len(fence):
-		// We need to make sure it's followed by a newline, so get more data.
-		return 0, nil, nil
-	case idx == 0 && (atEOF || (len(data) > len(fence) && data[len(fence)] == '\n')):
-		d.mask |= BlockPreEnd
-		d.clearMask |= BlockPre | BlockPreEnd
-		l := len(fence)
-		if !atEOF {
-			l++
+	newLineIDX := bytes.IndexByte(data, '\n')
+	if bytes.HasPrefix(data, fence) {
+		switch {
+		case !atEOF && len(data) == len(fence):
+			// We need to make sure it's followed by a newline, so get more data.
+			return 0, nil, nil
+		case newLineIDX == len(fence) || (atEOF && newLineIDX == -1):
+			// The fence is followed by a newline, or it starts the last line of the
+			// input and that line has no newline.
+			d.mask |= BlockPreEnd
+			d.clearMask |= BlockPre | BlockPreEnd
+			l := len(fence)
+			if newLineIDX == len(fence) {
+				l++
+			}
+			return l, data[:l], nil
 		}
-		return l, data[:l], nil
+	}
+	// Lines that are complete do not depend on whether more input follows, so
+	// look for them before considering the end of the input.
+	if newLineIDX >= 0 {
+		return newLineIDX + 1, data[:newLineIDX+1], nil
 	}
 	if atEOF {
 		return len(data), data, nil
-	}
-	newLineIDX := bytes.IndexByte(data, '\n')
-	if newLineIDX >= 0 {
-		return newLineIDX + 1, data[:newLineIDX+1], nil
 	}
 	return 0, nil, nil
 }
